@@ -341,7 +341,7 @@ func (fr *Frame) lookup(x *ssa.Lookup, st *State) *Val {
 	mt := x.X.Type().Underlying().(*types.Map)
 	kt := fr.asTerm(k, st)
 	if isIface(mt.Key()) {
-		u.oblige(fr, st, "ifaceeq", "mapkey", fmt.Sprintf("(comparable (typ %s))", kt), x.Pos(), "map key of uncomparable dynamic type panics")
+		u.oblige(fr, st, "ifaceeq", "mapkey", fmt.Sprintf("(comparable (ityp %s))", kt), x.Pos(), "map key of uncomparable dynamic type panics")
 	}
 	dom := fmt.Sprintf("(select %s %s)", u.mapDom(st, mt, m.T), kt)
 	in := and(fmt.Sprintf("(distinct %s nil)", m.T), dom)
@@ -369,7 +369,7 @@ func (fr *Frame) mapUpdate(x *ssa.MapUpdate, st *State) {
 	v := fr.asTerm(fr.val(x.Value), st)
 	u.oblige(fr, st, "nilmap", "", fmt.Sprintf("(distinct %s nil)", m.T), x.Pos(), "assignment to entry in nil map")
 	if isIface(mt.Key()) {
-		u.oblige(fr, st, "ifaceeq", "mapkey", fmt.Sprintf("(comparable (typ %s))", k), x.Pos(), "map key of uncomparable dynamic type panics")
+		u.oblige(fr, st, "ifaceeq", "mapkey", fmt.Sprintf("(comparable (ityp %s))", k), x.Pos(), "map key of uncomparable dynamic type panics")
 	}
 	fr.frameCheckRef(st, m.T, "map", x.Pos())
 	u.mapStore(st, mt, m.T, k, v)
